@@ -4,6 +4,7 @@ go 1.14
 
 require (
 	github.com/golang/protobuf v1.4.3
+	github.com/patrickmn/go-cache v2.1.0+incompatible
 	github.com/xuperchain/xupercore v0.0.0
 )
 
